@@ -8,7 +8,7 @@ from .. import base, gen, audit
 from ..base import Violation
 from . import common
 
-RULE = ("cases: (planar graph, trace, any configuration incl. non-emitting states / widths / node states / avoid_goingback / "
+RULE = ("cases: (planar graph - a fifth with linked parallel edges -, trace, any configuration of the four matcher families incl. non-emitting states / widths / node states / avoid_goingback / "
         "separate non-emitting noises, optional history match-extend-widen-rematch); every entry of the best path is recomputed; "
         "non-trivial = best path with >= 2 distinct states; classes: non-emitting run (length >= 2), emitting after "
         "non-emitting, after a history; distinct = case JSON")
